@@ -34,14 +34,14 @@ ASSUMPTIONS = [
     "reference Jacobian = complex-step derivative (h=1e-30) of an independent numpy evaluator with "
     "piecewise-analytic continuations; validated against sympy diff in 'selfcheck' cases",
     "points closer than 1e-6 to a kink or domain edge are skipped",
-    "tolerance 1e-9 x (largest magnitude of any intermediate value or derivative of the reference)",
+    "tolerance 1e-7 x (largest magnitude of any intermediate value or derivative of the reference)",
 ]
 BOUNDS = {
     "quick": "depth <= 2 chains over the full letter alphabet, n in {1,3,4}, 5 points; joins over 14x14 representatives x 6 ops, n in {3,4}; sympy self-check of the oracle (depth 1 at n=2,3; depth 2 at n=3)",
     "thorough": "depth <= 2 chains over the full letter alphabet, n in {1,2,3,4,6}, 9 points; joins op(l1(X), l2(Y)) over the full alphabet squared x 6 ops, n in {3,4}, and over 14x14 representatives for all n; depth-3 chains l3(r2(r1(X))) with l3 over the full alphabet and r1, r2 over 13 representatives, n in {3,4}; sympy self-check n in {2,3}",
 }
 MIN_CLASSES = 6
-TOL = 1e-9
+TOL = 1e-7
 
 SIZES = {"quick": (1, 3, 4), "thorough": (1, 2, 3, 4, 6)}
 JOIN_SIZES = {"quick": (3, 4), "thorough": (1, 2, 3, 4, 6)}
